@@ -40,3 +40,26 @@ func TestPPTXDeclaredOrder(t *testing.T) {
 		t.Fatalf("slides not in the order of the presentation's slide list: %q", txt)
 	}
 }
+
+// C18 / R18.7: a table inside a group shape was not decoded (the group struct lists shapes, pictures and nested
+// groups but no graphic frames), so the text of its cells appeared on no page.
+func TestPPTXTableInGroup(t *testing.T) {
+	tbl := `<p:graphicFrame><p:nvGraphicFramePr><p:cNvPr id="9" name="Tbl"/><p:cNvGraphicFramePr/><p:nvPr/></p:nvGraphicFramePr><a:graphic><a:graphicData uri="http://schemas.openxmlformats.org/drawingml/2006/table"><a:tbl><a:tblGrid><a:gridCol w="1"/></a:tblGrid><a:tr h="1"><a:tc><a:txBody><a:bodyPr/><a:p><a:r><a:t>GROUPEDCELL</a:t></a:r></a:p></a:txBody></a:tc></a:tr></a:tbl></a:graphicData></a:graphic></p:graphicFrame>`
+	slide := `<?xml version="1.0"?><p:sld xmlns:a="http://schemas.openxmlformats.org/drawingml/2006/main" xmlns:p="http://schemas.openxmlformats.org/presentationml/2006/main"><p:cSld><p:spTree>` +
+		`<p:sp><p:nvSpPr><p:cNvPr id="2" name="T"/><p:cNvSpPr/><p:nvPr/></p:nvSpPr><p:txBody><a:bodyPr/><a:p><a:r><a:t>TOPSHAPE</a:t></a:r></a:p></p:txBody></p:sp>` +
+		`<p:grpSp><p:nvGrpSpPr><p:cNvPr id="3" name="G"/><p:cNvGrpSpPr/><p:nvPr/></p:nvGrpSpPr><p:grpSpPr/>` + tbl + `</p:grpSp>` +
+		`</p:spTree></p:cSld></p:sld>`
+	p := zipOf(t, "deck.pptx", [][2]string{
+		{"[Content_Types].xml", `<?xml version="1.0"?><Types xmlns="http://schemas.openxmlformats.org/package/2006/content-types"><Default Extension="xml" ContentType="application/xml"/></Types>`},
+		{"ppt/presentation.xml", `<?xml version="1.0"?><p:presentation xmlns:p="http://schemas.openxmlformats.org/presentationml/2006/main" xmlns:r="http://schemas.openxmlformats.org/officeDocument/2006/relationships"><p:sldIdLst><p:sldId id="256" r:id="rId1"/></p:sldIdLst></p:presentation>`},
+		{"ppt/_rels/presentation.xml.rels", `<?xml version="1.0"?><Relationships xmlns="http://schemas.openxmlformats.org/package/2006/relationships"><Relationship Id="rId1" Type="http://schemas.openxmlformats.org/officeDocument/2006/relationships/slide" Target="slides/slide1.xml"/></Relationships>`},
+		{"ppt/slides/slide1.xml", slide},
+	})
+	txt, _, err := tabula.Open(p).Text()
+	if err != nil {
+		t.Fatal(err)
+	}
+	if !strings.Contains(txt, "TOPSHAPE") || strings.Count(txt, "GROUPEDCELL") != 1 {
+		t.Fatalf("text of a table inside a group shape is missing: %q", txt)
+	}
+}
